@@ -126,6 +126,17 @@ type outcome struct {
 }
 
 // entry performs one api.Entry and decodes the observables of a rejection.
+// flowRulesNotInForce: the module reports fewer rules than were loaded.  That is a scenario error only if the module's own
+// validity predicate refuses one of them; VALID rules that are not in force are the library's doing - the scenario runs on
+// and the decisions are judged against the rules that were loaded.
+func flowRulesNotInForce(tr int64, rules []*flow.Rule, got int) {
+	for _, fr := range rules {
+		if err := flow.IsValidRule(fr); err != nil {
+			hx.Fatal("trace %d: %d of %d rules in force: the scenario holds an invalid rule (%v)", tr, got, len(rules), err)
+		}
+	}
+}
+
 var curRun *run
 
 // reqOpts: options the api.Entry calls of the running request carry besides the batch count (resource type): they
@@ -236,7 +247,7 @@ func main() {
 				hx.Fatal("LoadRules: %v", err)
 			}
 			if got := len(flow.GetRules()); got != len(rules) {
-				hx.Fatal("trace %d: %d of %d rules in force", r.tr, got, len(rules))
+				flowRulesNotInForce(r.tr, rules, got) // scenario error iff some rule is invalid; else the decisions are judged
 			}
 			r.cur = rules
 			tr.Emit(hx.M{"op": "new", "tr": r.tr, "t": t0, "nres": hx.Int(s, "nres"), "rules": out, "maxI": maxI})
@@ -259,7 +270,7 @@ func main() {
 				hx.Fatal("LoadRules: %v", err)
 			}
 			if got := len(flow.GetRules()); got != len(rules) {
-				hx.Fatal("trace %d: %d of %d rules in force after the reload", r.tr, got, len(rules))
+				flowRulesNotInForce(r.tr, rules, got)
 			}
 			r.cur, r.reloaded = rules, true
 			tr.Emit(hx.M{"op": "reload", "t": r.rel(), "rules": out})
